@@ -50,6 +50,8 @@ def jobs(tier):
                 out.append(("%s.%s.v%d" % (name, kind, version), "job_fault", dict(req=name, kind=kind, version=version)))
     for kind in FAULTS:
         out.append(("comment.%s.v1.hardlinked" % kind, "job_fault", dict(req="comment", kind=kind, version=1, linked=True)))
+    for version in (1, 3):
+        out.append(("edit-after-killed-edit.v%d" % version, "job_after_killed", dict(version=version, killed=True)))
     out.append(("unencodable.v1", "job_unencodable", dict(version=1)))
     out.append(("unencodable.v3", "job_unencodable", dict(version=3)))
     return out
@@ -128,6 +130,57 @@ def _show(got):
     return repr(got)[:80]
 
 
+def job_after_killed(E, version, killed=True, _mutants=None):
+    """An edit is killed at an arbitrary operation (whatever it leaves behind - such as its scratch file - stays),
+    then a later, undisturbed edit by a new process: the metafile must be the complete result of that edit.
+    Encoded lengths are solver variables, so 'the later result is shorter than what was left behind' is covered."""
+    from symx.loader import ben_len
+    force = {k: True for k in ("announce", "httpseeds", "comment", "private", "source", "url-list")}
+    force["comment-top"] = False
+    force["layers"] = True
+    base = ew.base_meta(E, version, force)
+    fs = AFS()
+    w1 = World(fs, mutants=_mutants)
+    w1.track_lengths = True
+    stored = ben_copy(base)
+    fs.add_token(MPATH, BenTok(stored), size=ben_len(stored, w1))
+    req1 = ew.request(E, {"comment": "str"}, tag="k1")
+    req2 = ew.request(E, {"comment": "str"}, tag="k2")
+    for r in (req1, req2):
+        for v in r.values():
+            if isinstance(v, OStr):
+                v._nonempty = True
+    fs.fault = FaultPlan(E.int("fault_at", 0, 6), "crash")
+    try:
+        _run(w1, req1)
+    except Crash:
+        E.witnesses["first edit killed"] = True
+    except Unsupported:
+        raise
+    except Exception:  # noqa: BLE001
+        return
+    fs.fault, fs.dead, fs._handles = None, False, []
+    mid = ew.file_obj(fs)
+    if not isinstance(mid, dict):
+        return              # reported by the fault jobs
+    w2 = World(fs, mutants=_mutants)
+    w2.track_lengths = True
+    w2.benlens = w1.benlens
+    try:
+        _run(w2, req2)
+    except Unsupported:
+        raise
+    except Exception as ex:  # noqa: BLE001
+        E.fail("C17.after-killed-edit.no-exception", "%s: %s" % (type(ex).__name__, ex))
+        return
+    got = ew.file_obj(fs)
+    if E.check(isinstance(got, dict), "C17.after-killed-edit.complete",
+               "an undisturbed edit after a killed one left %s at the metafile path" % (_show(got),)):
+        E.check(got.get("info", {}).get("comment") is req2["comment"], "C17.after-killed-edit.is-the-edit")
+    for k in WITNESSES:
+        E.witnesses.setdefault(k, True)
+
+
 def job_unencodable(E, version, _mutants=None):
     base = ew.base_meta(E, version, _force({"comment": 1}))
     fs = AFS()
@@ -149,6 +202,75 @@ def job_unencodable(E, version, _mutants=None):
 
 # ------------------------------------------------------------------ concrete replay
 
+def _replay_killed(params, model, workdir):
+    """First edit killed at operation `fault_at` (everything it did up to there stays on the disk, nothing after),
+    second edit undisturbed; string lengths as the solver chose them."""
+    import subprocess
+    import sys
+    import json
+    from harness import c07
+
+    def L(name, default=5):
+        return max(1, int(model.get("benlen.%s" % name, default + 2)) - 2)
+    version = params["version"]
+    base = c07.conc_base(version, {"base.%s" % k: 1 for k in ("announce", "httpseeds", "comment", "private", "source", "url-list")})
+    base["info"]["comment"] = "c" * L("base.comment")
+    mpath = os.path.join(workdir, "m.torrent")
+    with open(mpath, "wb") as f:
+        f.write(refconc.bencode(base))
+    repo = os.environ.get("VERIF_REAL_REPO") or os.environ.get("VERIF_REPO", "/repo")
+    at = int(model.get("fault_at", 0))
+    # the killed edit runs in a child process that really dies (os._exit) at its at-th mutating filesystem call
+    child = (
+        "import sys, os, builtins\n"
+        "sys.path.insert(0, %r)\n"
+        "n = [0]\n"
+        "def point():\n"
+        "    if n[0] == %d:\n"
+        "        os._exit(9)\n"
+        "    n[0] += 1\n"
+        "ro, rr, rp, rn, oo = builtins.open, os.remove, os.replace, os.rename, os.open\n"
+        "class W:\n"
+        "    def __init__(s, f): s.f = f; s.p = []\n"
+        "    def write(s, d):\n"
+        "        if len(d) >= 4096: s.flush(); point(); s.f.write(d); return len(d)\n"
+        "        s.p.append(bytes(d)); return len(d)\n"
+        "    def flush(s):\n"
+        "        if s.p: d = b''.join(s.p); s.p = []; point(); s.f.write(d)\n"
+        "    def close(s): s.flush(); s.f.close()\n"
+        "    def fileno(s): return s.f.fileno()\n"
+        "    def __enter__(s): return s\n"
+        "    def __exit__(s, *a): s.close()\n"
+        "    def __getattr__(s, k): return getattr(s.f, k)\n"
+        "def fo(p, m='r', *a, **k):\n"
+        "    if any(c in m for c in 'wax+'): point(); return W(ro(p, m, buffering=0))\n"
+        "    return ro(p, m, *a, **k)\n"
+        "def foo(p, fl, mode=0o777, **k): point(); return oo(p, fl, mode, **k)\n"
+        "def fdo(fd, m='r', b=-1, **k): return W(os.__dict__['_real_fdopen'](fd, m, 0))\n"
+        "os.__dict__['_real_fdopen'] = os.fdopen\n"
+        "def w1(f):\n"
+        "    def g(*a, **k): point(); return f(*a, **k)\n"
+        "    return g\n"
+        "builtins.open = fo; os.open = foo; os.fdopen = fdo; os.remove = os.unlink = w1(rr); os.replace = w1(rp); os.rename = w1(rn)\n"
+        "from torrentfile.edit import edit_torrent\n"
+        "edit_torrent(sys.argv[1], {'comment': sys.argv[2]})\n" % (repo, at))
+    subprocess.run([sys.executable, "-c", child, mpath, "k" * L("reqk1.comment")], capture_output=True, cwd=workdir)
+    if not os.path.exists(mpath):
+        return ["C17.complete-after-fault (metafile missing after the killed edit)"]
+    mods = cr.real_torrentfile()
+    want2 = "n" * L("reqk2.comment")
+    try:
+        mods["torrentfile.edit"].edit_torrent(mpath, {"comment": want2})
+    except Exception as ex:  # noqa: BLE001
+        return ["C17.after-killed-edit.no-exception: %s: %s" % (type(ex).__name__, ex)]
+    data = open(mpath, "rb").read()
+    try:
+        got = refconc.bdecode_strict(data)
+    except refconc.BencodeError as ex:
+        return ["C17.after-killed-edit.complete (%d bytes: %s)" % (len(data), ex)]
+    return [] if got.get(b"info", {}).get(b"comment") == want2.encode() else ["C17.after-killed-edit.is-the-edit"]
+
+
 def replay(params, model, notes, workdir, seed):
     """Replay on the real package with the real filesystem calls of edit.py
     intercepted at the same operation index (os.remove/os.replace/os.rename and
@@ -157,6 +279,8 @@ def replay(params, model, notes, workdir, seed):
     import io
     import pyben
     from harness import c07
+    if params.get("killed"):
+        return _replay_killed(params, model, workdir)
     version = params["version"]
     base = c07.conc_base(version, model)
     mpath = os.path.join(workdir, "m.torrent")
@@ -200,6 +324,7 @@ def replay(params, model, notes, workdir, seed):
         if k != at:
             return None
         if kind == "crash" or (kind == "short" and name != "write"):
+            state["dead"] = True
             raise Died()
         if kind == "eperm":
             raise PermissionError(13, "Permission denied", path)
@@ -210,16 +335,30 @@ def replay(params, model, notes, workdir, seed):
         if kind in ("enospc", "short") and name not in ("write", "copy-write"):
             if kind == "enospc":
                 raise OSError(28, "No space left on device", path)
+            state["dead"] = True
             raise Died()
         return kind
 
     real_open, real_remove, real_replace, real_rename = builtins.open, os.remove, os.replace, os.rename
 
+    state = {"dead": False}
+    BUF = 4096
+
+    def die():
+        state["dead"] = True
+        raise Died()
+
     class WFile:
+        """The real file object, written through immediately (so that the disk always shows what the operating system
+        has got), behind a buffer with io.BufferedWriter's discipline: small writes wait for flush / close."""
+
         def __init__(self, f, path):
             self.f, self.path = f, path
+            self.pending = []
 
-        def write(self, data):
+        def _emit(self, data):
+            if state["dead"]:
+                raise Died()
             r = point("write", self.path)
             if r == "shortret" and not getattr(self, "raw", False):
                 r = None
@@ -233,36 +372,84 @@ def replay(params, model, notes, workdir, seed):
                 self.f.flush()
                 if r == "enospc":
                     raise OSError(28, "No space left on device", self.path)
-                raise Died()
-            return self.f.write(data)
+                die()
+            n = self.f.write(data)
+            self.f.flush()
+            return n
+
+        def write(self, data):
+            if getattr(self, "raw", False):
+                return self._emit(data)
+            if len(data) >= BUF:
+                self.flush()
+                return self._emit(data)
+            self.pending.append(bytes(data))
+            return len(data)
+
+        def flush(self):
+            if self.pending:
+                data = b"".join(self.pending)
+                self.pending = []
+                self._emit(data)
+
+        def close(self):
+            try:
+                if not state["dead"]:
+                    self.flush()
+            finally:
+                self.f.close()
+
+        def fileno(self):
+            return self.f.fileno()
 
         def __enter__(self):
             return self
 
         def __exit__(self, *a):
-            self.f.close()
+            self.close()
 
         def __getattr__(self, n):
             return getattr(self.f, n)
 
     def fake_open(path, mode="r", *a, **k):
         if isinstance(path, (str, os.PathLike)) and str(path).startswith(workdir) and any(c in mode for c in "wax+"):
+            if state["dead"]:
+                raise Died()
             point("open-" + mode.replace("b", ""), path)
             raw = k.get("buffering", a[0] if a else -1) == 0
-            wf = WFile(real_open(path, mode, *a, **k), path)
+            wf = WFile(real_open(path, mode, *a, **dict(k, buffering=0) if "b" in mode else k), path)
             wf.raw = raw
             return wf
         return real_open(path, mode, *a, **k)
 
+    real_os_open, real_fdopen = os.open, os.fdopen
+
+    def fake_os_open(path, flags, mode=0o777, **k):
+        if state["dead"]:
+            raise Died()
+        point("open-" + ("w" if flags & os.O_TRUNC else "r+"), path)
+        return real_os_open(path, flags, mode, **k)
+
+    def fake_fdopen(fd, mode="r", buffering=-1, **k):
+        wf = WFile(real_fdopen(fd, mode, 0 if "b" in mode else buffering, **k), "<fd>")
+        wf.raw = buffering == 0
+        return wf
+
     def fake_remove(p):
+        if state["dead"]:
+            raise Died()
         point("remove", p)
         return real_remove(p)
 
     def fake_replace(a, b):
+        if state["dead"]:
+            raise Died()
         point("rename", a)
         return real_replace(a, b)
 
     def fake_rename(a, b):
+        if state["dead"]:
+            raise Died()
         point("rename", a)
         return real_rename(a, b)
 
@@ -288,6 +475,7 @@ def replay(params, model, notes, workdir, seed):
     _sh.copyfile = _sh.copy = _sh.copy2 = fake_copyfile
     builtins.open, os.remove, os.replace, os.rename = fake_open, fake_remove, fake_replace, fake_rename
     os.unlink = fake_remove
+    os.open, os.fdopen = fake_os_open, fake_fdopen
     try:
         try:
             ed.edit_torrent(mpath, dict(req))
@@ -298,6 +486,7 @@ def replay(params, model, notes, workdir, seed):
     finally:
         builtins.open, os.remove, os.replace, os.rename = real_open, real_remove, real_replace, real_rename
         os.unlink = real_remove
+        os.open, os.fdopen = real_os_open, real_fdopen
         _sh.copyfile, _sh.copy, _sh.copy2 = real_copyfile, real_copy, real_copy2
     if not os.path.exists(mpath):
         return ["C17.complete-after-fault (metafile missing)"]
